@@ -492,6 +492,9 @@ class History:
         eid = self.some_id() if eid is None else eid
         pos = [self.fbits() for _ in range(3)]; ypr = [self.fbits() for _ in range(3)]
         payload = struct.pack('<ii', eid, 5) + b''.join(map(f32b, pos)) + bytes(12) + b''.join(map(f32b, ypr)) + b'\x00'
+        if self.dialect != 'wowp' and self.rng.random() < 0.25:
+            # bytes behind the 45 bytes of fields belong to nothing: the fields are where they are whatever the payload length (49, 50, 53, 64 ...)
+            payload += bytes(self.rng.randrange(1, 256) for _ in range(self.rng.choice([1, 4, 5, 8, 19])))
         self.emit('Position', payload, 'position')
         if eid in self.ents and self.dialect != 'wowp':
             p = self.ents[eid]['pose']; p['position'] = ('v', pos); p['yaw'] = ('f', ypr[0]); p['pitch'] = ('f', ypr[1]); p['roll'] = ('f', ypr[2])
